@@ -211,8 +211,8 @@ example : validateConfigPerm none none ⟨true, false⟩ .resolved (.ok ⟨0, 0,
     validateConfigPerm none none ⟨false, true⟩ .resolved (.ok ⟨1234, 0, 0o644⟩) ≠ .ok (.ok ()) ∧
     validateConfigPerm none none ⟨false, false⟩ .resolved (.ok ⟨1234, 0, 0o666⟩) = .ok (.ok ()) := by decide
 
-/-- the modelled panic branch of the check (stat error other than not-exist) is reachable in the model -/
-example : checkPerm .resolved .otherErr = .panic "nil" := rfl
+/-- a stat error other than not-exist is an error of the check (a panic before fix fc39d65): nothing is run -/
+example : checkPerm .resolved .otherErr = .ok (.error "stat") := rfl
 
 #print axioms C18_predicate
 #print axioms C18_bits
